@@ -50,7 +50,7 @@ RULE = (
     "distinct = sha1(case); non-trivial = nested requests were observed (depth >= 3) or the substitution changed the result."
 )
 ASSUMPTIONS = ["substitution cases are compared only for dictionaries on which the un-substituted graph evaluates (keys of the substituted dataset are still computed by caching consumers)"]
-FLOORS = {"user_subclass_operations": (13, 13), "backend_lied_exists": (150, 1500), "log_emitters_checked": (9, 9), "types_checked": (28, 28), "method_requests_matched": (106, 106), "graph_evaluations": (4000, 30000), "body_stack_checks": (1500, 10000),
+FLOORS = {"user_subclass_operations": (13, 13), "backend_lied_exists": (150, 1000), "log_emitters_checked": (9, 9), "types_checked": (28, 28), "method_requests_matched": (106, 106), "graph_evaluations": (4000, 30000), "body_stack_checks": (1500, 10000),
           "backend_calls_under_request": (8000, 60000), "option_type_validations": (20000, 100000), "substitutions_compared": (1500, 6000),
           "substitution_changed_result": (800, 3000), "implementation_calls_matched": (100000, 1000000)}
 COVER = {"substitution_inner_blocks": ["none", "cache.disabled", "logging.disabled", "mapping-form", "pair-form"]}
